@@ -153,7 +153,8 @@ def parse_cbmc_text(res, text):
         if not e.startswith("["):
             continue
         e = e.split("\n\n")[0]
-        m = re.match(r"^\[(?P<id>.*?)\] (?:line (?P<line>\d+) )?(?P<desc>.*): (?P<st>SUCCESS|FAILURE|UNKNOWN|ERROR)\s*$", e, re.S)
+        # the id ends in `.class.N` (or is `class.N`); it may itself contain ']' (slice types)
+        m = re.match(r"^\[(?P<id>(?:.*?\.)?[A-Za-z_\-]+\.\d+)\] (?:line (?P<line>\d+) )?(?P<desc>.*): (?P<st>SUCCESS|FAILURE|UNKNOWN|ERROR)\s*$", e, re.S)
         if not m:
             continue
         pid = m.group("id"); desc = " ".join(m.group("desc").split()); st = m.group("st")
@@ -280,7 +281,7 @@ def unwindset_args(goto, rules):
 def run_one(scratch, name, goto, unwind, timeout_s, logdir, extra_cbmc=()):
     res = HarnessResult(name)
     logp = os.path.join(logdir, name + ".log")
-    args = ["cbmc"] + CBMC_FLAGS + ["--unwind", str(unwind)] + list(extra_cbmc) + [goto]
+    args = ["cbmc"] + CBMC_FLAGS + ["--unwind", str(unwind)] + list(extra_cbmc) + os.environ.get("VERIF_CBMC_EXTRA", "").split() + [goto]
     t0 = time.time()
     with open(logp, "w") as lf:
         p = subprocess.Popen(args, stdout=lf, stderr=subprocess.STDOUT, start_new_session=True)
@@ -350,10 +351,11 @@ def run_kani(scratch, package, insts, jobs, timeout_s, small=True, extra_cfg=(),
         goto = link_and_instrument(gotos[n], logdir, n)
         try:
             return run_one(scratch, n, goto, inst.unwind, t, logdir,
-                           extra_cbmc=unwindset_args(goto, getattr(inst, "unwind_rules", None)))
+                           extra_cbmc=unwindset_args(goto, getattr(inst, "unwind_rules", None)) + list(getattr(inst, "cbmc_extra", ())))
         finally:
             try:
-                os.remove(goto)
+                if not scratch.keep:
+                    os.remove(goto)
             except OSError:
                 pass
 
@@ -419,6 +421,7 @@ def parse_trace_tape(text):
 
 
 def extract_tapes(scratch, symtab, name, unwind, prop_ids, logdir, timeout_s=1200, extra_cbmc=(), unwind_rules=None):
+    extra_cbmc = list(extra_cbmc)
     """One CBMC query per failed property (--property, with --trace): the satisfying assignment is the
     counterexample; its draws, in order, are the replay tape."""
     goto = link_and_instrument(symtab, logdir, name + ".cex")
@@ -433,8 +436,8 @@ def extract_tapes(scratch, symtab, name, unwind, prop_ids, logdir, timeout_s=120
                 continue
             if "VERIFICATION FAILED" not in out:
                 continue
-            t = parse_trace_tape(out)
-            if t and t not in tapes:
+            t = parse_trace_tape(out)   # may be empty: a harness without symbolic draws
+            if t not in tapes:
                 tapes.append(t)
     finally:
         try:
@@ -445,7 +448,7 @@ def extract_tapes(scratch, symtab, name, unwind, prop_ids, logdir, timeout_s=120
 
 
 def native_replay(scratch, package, name, tape, profile, small=True, extra_cfg=(), test_path="verif::replay::run",
-                  real_deps=True):
+                  real_deps=True, with_shims=False):
     """Run the harness body natively on the tape (real memchr etc.). Returns (result, output)."""
     os.makedirs(scratch.dir + "/replay", exist_ok=True)
     f = scratch.dir + "/replay/%s.%s.tape" % (name, profile)
@@ -453,14 +456,18 @@ def native_replay(scratch, package, name, tape, profile, small=True, extra_cfg=(
         fh.write(name + "\n")
         for v in tape:
             fh.write(" ".join(str(b) for b in v) + "\n")
+    if with_shims:
+        # the protocol harnesses replay against the real nucleo code linked with the single-threaded
+        # shims (the schedule of a counterexample only exists in that model)
+        extra_cfg = tuple(extra_cfg) + ("nucleo_verif_shims",)
     env = scratch.env(small, extra_cfg)
     env["NUCLEO_VERIF_REPLAY"] = f
-    env["CARGO_TARGET_DIR"] = scratch.dir + "/native-target"
+    env["CARGO_TARGET_DIR"] = scratch.dir + ("/native-target-shims" if with_shims else "/native-target")
     args = ["cargo", "test", "-p", package, "--lib", "--offline"]
     if profile == "release":
         args.append("--release")
     args += [test_path, "--", "--exact", "--nocapture", "--test-threads", "1"]
-    p = subprocess.run(args, cwd=scratch.native_repo(), env=env, capture_output=True, text=True, timeout=1200)
+    p = subprocess.run(args, cwd=scratch.repo if with_shims else scratch.native_repo(), env=env, capture_output=True, text=True, timeout=1200)
     out = p.stdout + p.stderr
     m = re.search(r"REPLAY-RESULT (\w+)", out)
     if "REPLAY-ASSUME-FAILED" in out:
